@@ -47,6 +47,7 @@ NumByte(t) == t - 200
 
 \* one character of a string: code point cp written with spelling sp
 SpRaw == 0   SpShort == 1   SpULower == 2   SpUUpper == 3   SpPairLower == 4   SpPairUpper == 5
+SpMixed == 6         \* hex digits of mixed case: \uXxXx (digits 1, 3 upper, 2, 4 lower); a pair as \uXXXX\uxxxx
 ChTok(cp, sp) == 1000 + cp * 8 + sp
 IsChTok(t) == t >= 1000
 TokCp(t) == (t - 1000) \div 8
@@ -56,6 +57,8 @@ MaxCp == 1114111
 IsSurr(cp) == cp >= 55296 /\ cp <= 57343
 ShortSet == {34, 92, 47, 8, 9, 10, 12, 13}        \* " \ / \b \t \n \f \r
 HexLetter(n) == \E d \in {n % 16, (n \div 16) % 16, (n \div 256) % 16, (n \div 4096) % 16} : d >= 10
+OddHexLetter(n)  == (n \div 4096) % 16 >= 10 \/ (n \div 16) % 16 >= 10      \* digit 1 or 3 is a letter
+EvenHexLetter(n) == (n \div 256) % 16 >= 10 \/ n % 16 >= 10                \* digit 2 or 4 is a letter
 
 \* RFC 8259 section 7: which spellings of a code point are grammatical inside a string
 SpellingOK(cp, sp) ==
@@ -63,17 +66,21 @@ SpellingOK(cp, sp) ==
       [] sp = SpShort -> cp \in ShortSet
       [] sp \in {SpULower, SpUUpper} -> cp >= 0 /\ cp <= 65535
       [] sp \in {SpPairLower, SpPairUpper} -> cp >= 65536 /\ cp <= MaxCp
+      [] sp = SpMixed -> cp >= 0 /\ cp <= MaxCp
       [] OTHER -> FALSE
 
 \* the grammatical spellings with pairwise different renderings
 Spellings(cp) ==
-    {sp \in 0..5 : SpellingOK(cp, sp) /\ (sp = SpUUpper => HexLetter(cp))}
+    {sp \in 0..6 : /\ SpellingOK(cp, sp)
+                   /\ (sp = SpUUpper => HexLetter(cp))
+                   /\ (sp = SpMixed /\ cp <= 65535 => OddHexLetter(cp) /\ EvenHexLetter(cp))}
 
 \* length in bytes of a spelling
 SpLen(cp, sp) ==
     CASE sp = SpRaw -> (IF cp < 128 THEN 1 ELSE IF cp < 2048 THEN 2 ELSE IF cp < 65536 THEN 3 ELSE 4)
       [] sp = SpShort -> 2
       [] sp \in {SpULower, SpUUpper} -> 6
+      [] sp = SpMixed -> (IF cp <= 65535 THEN 6 ELSE 12)
       [] OTHER -> 12
 
 \* ------------------------------------------------------------------------
@@ -292,7 +299,7 @@ Status(T) == StatusOf(Parse(T))
 \* ------------------------------------------------------------------------
 ShortestSp(cp, sp) == /\ sp \in Spellings(cp)
                       /\ \A o \in Spellings(cp) : SpLen(cp, sp) <= SpLen(cp, o)
-                      /\ sp # SpUUpper                  \* the Matrix grammar spells \u00xx in lower case
+                      /\ sp \notin {SpUUpper, SpMixed}    \* the Matrix grammar spells \u00xx in lower case
 RECURSIVE KeysAscending(_)
 KeysAscending(v) ==
     /\ v.k = "obj" => \A i \in 1..(Len(v.c) - 1) : LexLess(v.c[i].key, v.c[i + 1].key)
@@ -322,7 +329,7 @@ CONSTANT Scenarios          \* set of [fam, v, ws, sp, perm, cor]
 VARIABLES scen,     \* history: the scenario (value to write and budget)
           todo,     \* work stack: what remains to be written
           text,     \* tokens written so far
-          status,   \* "valid" | "invalid" | "illformed": class of the text once finished
+          status,   \* "valid" | "invalid" | "illformed" | "dupkeys": class of the text once finished
           bud,      \* remaining budget
           cor,      \* history: the Corrupt action taken, or "none"
           phase     \* "start" | "writing" | "done"
@@ -343,7 +350,7 @@ NoBudget == [ws |-> 0, sp |-> 0, perm |-> FALSE, cor |-> FALSE]
 InitWith(S) == /\ scen \in S
                /\ todo = <<ValItem(scen.v)>>
                /\ text = <<>>
-               /\ status = "valid"
+               /\ status = (IF HasDupKeys(scen.v) THEN "dupkeys" ELSE "valid")
                /\ bud = [ws |-> scen.ws, sp |-> scen.sp, perm |-> scen.perm, cor |-> scen.cor]
                /\ cor = "none"
                /\ phase = "start"
@@ -458,7 +465,7 @@ Next == \/ Start
         \/ BeginArray
         \/ \E p \in (IF TopIs("obj") THEN Orders(Len(Top.v.c)) ELSE {}) : ChooseKeyOrder(p)
         \/ BeginString
-        \/ \E sp \in 0..5 : EmitChar(sp)
+        \/ \E sp \in 0..6 : EmitChar(sp)
         \/ CloseString
         \/ Corrupt
         \/ Finish
@@ -487,6 +494,8 @@ UTF8(cp) ==
 HexDigit(d, up) == IF d < 10 THEN 48 + d ELSE IF up THEN 55 + d ELSE 87 + d
 UEscape(n, up) == <<92, 117, HexDigit((n \div 4096) % 16, up), HexDigit((n \div 256) % 16, up),
                     HexDigit((n \div 16) % 16, up), HexDigit(n % 16, up)>>
+UEscapeMixed(n) == <<92, 117, HexDigit((n \div 4096) % 16, TRUE), HexDigit((n \div 256) % 16, FALSE),
+                      HexDigit((n \div 16) % 16, TRUE), HexDigit(n % 16, FALSE)>>
 ShortLetter(cp) == CASE cp = 34 -> 34 [] cp = 92 -> 92 [] cp = 47 -> 47 [] cp = 8 -> 98 [] cp = 9 -> 116
                      [] cp = 10 -> 110 [] cp = 12 -> 102 [] cp = 13 -> 114
 HighSurr(cp) == 55296 + (cp - 65536) \div 1024
@@ -498,6 +507,8 @@ ChBytes(cp, sp) ==
       [] sp = SpUUpper -> UEscape(cp, TRUE)
       [] sp = SpPairLower -> UEscape(HighSurr(cp), FALSE) \o UEscape(LowSurr(cp), FALSE)
       [] sp = SpPairUpper -> UEscape(HighSurr(cp), TRUE) \o UEscape(LowSurr(cp), TRUE)
+      [] sp = SpMixed -> (IF cp <= 65535 THEN UEscapeMixed(cp)
+                          ELSE UEscape(HighSurr(cp), TRUE) \o UEscape(LowSurr(cp), FALSE))
 
 TokBytes(t) == IF IsChTok(t) THEN ChBytes(TokCp(t), TokSp(t))
                ELSE IF IsNumTok(t) THEN <<NumByte(t)>> ELSE FixedBytes(t)
@@ -512,12 +523,12 @@ Bytes(T) == BytesFrom(T, 1, <<>>)
 \*    scen (the value) and text (its presentation).
 \* ------------------------------------------------------------------------
 TypeOK == /\ phase \in {"start", "writing", "done"}
-          /\ status \in {"valid", "invalid", "illformed"}
+          /\ status \in {"valid", "invalid", "illformed", "dupkeys"}
           /\ bud.ws >= 0 /\ bud.sp >= 0
-          /\ (cor = "none") = (status = "valid")
+          /\ (cor = "none") = (status \in {"valid", "dupkeys"})
 
 \* value-only facts, checked once per scenario (in the state that follows Start)
-AtStart == phase = "writing" /\ text = <<>> /\ todo = <<ValItem(scen.v)>>
+AtStart == phase = "writing" /\ text = <<>> /\ todo = <<ValItem(scen.v)>> /\ ~HasDupKeys(scen.v)
 \* Parse(Canon(v)) = v: canonicalisation denotes the same value, and is valid JSON
 CanonDenotesValue == AtStart => LET r == Parse(Canon(scen.v)) IN
                                 StatusOf(r) = "valid" /\ SameValue(r.v, scen.v)
